@@ -29,6 +29,27 @@ Theorem C04_checker_decides : forall H : history,
 Proof. exact check_decides. Qed.
 Print Assumptions C04_checker_decides.
 
+(* (3a) the memoised checker (Lin/Memo.v: the same exhaustive search, but a configuration = (set of remaining
+        operations, specification state) that failed once is never searched again) is the one the check runs;
+        both of its verdicts are theorems too and it agrees with the exhaustive checker on every history *)
+From ZV Require Import Lin.Memo Lin.MemoProofs.
+
+Theorem C04_mchecker_sound : forall H : history, mcheck H = Lin -> linearizable H.
+Proof. exact mcheck_sound. Qed.
+Print Assumptions C04_mchecker_sound.
+
+Theorem C04_mchecker_complete : forall H : history, mcheck H = NonLin -> ~ linearizable H.
+Proof. exact mcheck_complete. Qed.
+Print Assumptions C04_mchecker_complete.
+
+Theorem C04_mchecker_fuel_sufficient : forall H : history, mcheck H <> OutOfFuel.
+Proof. exact mcheck_fuel_sufficient. Qed.
+Print Assumptions C04_mchecker_fuel_sufficient.
+
+Theorem C04_mchecker_eq_checker : forall H : history, mcheck H = check H.
+Proof. exact mcheck_eq_check. Qed.
+Print Assumptions C04_mchecker_eq_checker.
+
 (* ---------- non-vacuity ---------- *)
 Open Scope N_scope.
 (* two overlapping INCRs and a later GET: linearizable (and the checker says so) *)
